@@ -2039,4 +2039,72 @@ def demoOps : List Op :=
    .smInit, .smAdd 5, .smAdd 6, .smDel 0, .smMin, .smGet 1, .smGet 0, .failfrom 1, .smAdd 7, .failoff, .smFree,
    .mpMalloc, .mpMalloc, .mpFree 0, .mpFree 99, .mpMalloc, .eaInit 2 2 1, .failat 1, .eqInit 2, .mpExit, .end_]
 
+/-! ## whole runs of one family: the component follows `EQueue.run` / `SeqMap.run` -/
+
+theorem eq_step_reclen (q : EQueue.EQ) (e : EqOp) (m : Mem) : (EQueue.step q e m).2.1.reclen = q.reclen := by
+  cases e with
+  | add rec =>
+    simp only [EQueue.step, EQueue.add]
+    rcases EArray.append q.ea rec 1 q.reclen m with ⟨st, a, m'⟩
+    cases st <;> rfl
+  | delete =>
+    simp only [EQueue.step, EQueue.delete]
+    split
+    · rfl
+    · split
+      · split <;> rfl
+      · rfl
+  | getlen => rfl
+  | get pos => simp only [EQueue.step]; split <;> rfl
+  | set pos rec =>
+    simp only [EQueue.step]
+    split
+    · rename_i q' hq
+      unfold EQueue.set at hq
+      split at hq
+      · cases hq
+      · simp only [Option.map_eq_some_iff] at hq
+        obtain ⟨a, _, rfl⟩ := hq; rfl
+    · rfl
+
+/-- a sequence of `eq_add` / `eq_del` / `eq_len` / `eq_get` / `eq_set` lines on an existing queue: the queue and the
+oracle of the executable's state are those of `EQueue.run` over the projected operations (as long as no step reports
+an access outside storage, which `eq_run_refines` excludes) -/
+theorem eq_runOps (ops : List Op) : ∀ (s : DsStep.S) (q : EQueue.EQ), s.eq = some q →
+    (∀ op ∈ ops, (eqOpOf q.reclen.val op).isSome) →
+    (∀ x ∈ (EQueue.run q (ops.filterMap (eqOpOf q.reclen.val)) s.m).1, x.2.st ≠ .oob) →
+    (runOps s ops).1.eq = some (EQueue.run q (ops.filterMap (eqOpOf q.reclen.val)) s.m).2.1 ∧
+    (runOps s ops).1.m = (EQueue.run q (ops.filterMap (eqOpOf q.reclen.val)) s.m).2.2 := by
+  induction ops with
+  | nil => intro s q hs _ _; exact ⟨hs, rfl⟩
+  | cons op rest ih =>
+    intro s q hs hall hno
+    have hsome := hall op List.mem_cons_self
+    obtain ⟨e, he⟩ := Option.isSome_iff_exists.1 hsome
+    simp only [List.filterMap_cons, he, EQueue.run] at hno ⊢
+    have hrl := eq_step_reclen q e s.m
+    have hstep := eq_stepOp s q hs op e he
+    rcases hst : EQueue.step q e s.m with ⟨an, q', m'⟩
+    rw [hst] at hno hrl hstep
+    simp only at hno hrl hstep ⊢
+    have hstep' := hstep (by
+      apply hno (e, an)
+      rcases EQueue.run q' (List.filterMap (eqOpOf q.reclen.val) rest) m' with ⟨tr, q'', m''⟩
+      exact List.mem_cons_self)
+    simp only [runOps, hstep']
+    have := ih { s with m := m', eq := some q' } q' rfl
+      (by rw [hrl]; exact fun o ho => hall o (List.mem_cons_of_mem _ ho))
+      (by
+        rw [hrl]
+        intro x hx
+        apply hno x
+        have hx' : x ∈ (EQueue.run q' (List.filterMap (eqOpOf q.reclen.val) rest) m').1 := hx
+        revert hx'
+        rcases EQueue.run q' (List.filterMap (eqOpOf q.reclen.val) rest) m' with ⟨tr, q'', m''⟩
+        exact fun hx' => List.mem_cons_of_mem _ hx')
+    rw [hrl] at this
+    rcases hr : EQueue.run q' (List.filterMap (eqOpOf q.reclen.val) rest) m' with ⟨tr, q'', m''⟩
+    rw [hr] at this
+    exact this
+
 end Percival.Proofs.DsStep
